@@ -18,7 +18,6 @@ VERIF = os.path.dirname(os.path.dirname(os.path.abspath(__file__)))
 APPEND = {
     'precis-core/src/common.rs': 'core_common.rs',
     'precis-core/src/context.rs': 'core_context.rs',
-    'precis-core/src/stringclasses.rs': 'core_stringclasses.rs',
     'precis-core/src/lib.rs': 'core_lib.rs',
     'precis-profiles/src/common.rs': 'profiles_common.rs',
     'precis-profiles/src/usernames.rs': 'profiles_usernames.rs',
